@@ -35,11 +35,12 @@ REQUIRED_COUNTERS = ["resolutions_checked", "undefined_checked", "strict_nameerr
 REQUIRED_COUNTERS += ["shadowing_checked"]
 RULE += "; directed scenarios for the names a call body takes as arguments (args=): the call expression reads the same name from the enclosing scope"
 REQUIRED_COUNTERS += ["call_body_args_checked"]
+RULE += "; read site attr3: only in the args= of an <%include> whose file= is an expression"
 
 _st = {}
 
 SITES = ["ctx", "page", "body", "defarg", "encl", "loop", "mod", "nsimport", "builtin"]
-READS = ["body", "def", "defcb", "nested", "anonblock", "namedblock", "callbody", "calldef", "ctrl", "attr", "attr2", "filter",
+READS = ["body", "def", "defcb", "nested", "anonblock", "namedblock", "callbody", "calldef", "ctrl", "attr", "attr2", "attr3", "filter",
          "elif", "except", "nesteddefault"]
 SHOW = (
     "<%!\n"
@@ -85,7 +86,7 @@ def expected(sites, read, name):
     if "page" in s:
         body_locals.append("ctx" if "ctx" in s else "page")  # render(x=..) fills the page argument
     order = []
-    if read in ("body", "ctrl", "attr", "attr2", "callbody", "calldef", "anonblock", "filter", "elif", "except"):
+    if read in ("body", "ctrl", "attr", "attr2", "attr3", "callbody", "calldef", "anonblock", "filter", "elif", "except"):
         # python locals / closures of the body
         if "loop" in s:
             order.append("loop")
@@ -172,6 +173,9 @@ def build(sites, read, name, layout):
     elif read == "attr2":
         # a tag attribute holding TWO expressions; the name is read in the first one
         core = "<%%include file=\"${keep(%s)}${'inc.html'}\"/>[${KEPT[-1]}]" % name
+    elif read == "attr3":
+        # the name is read ONLY in the args= of an include whose file= is computed (from another name)
+        core = "<%%include file=\"${str('inc') + '.html'}\" args=\"v=keep(%s)\"/>[${KEPT[-1]}]" % name
     elif read == "filter":
         core = "[${'' | n,mkf(%s)}]" % name
     elif read == "elif":
